@@ -43,7 +43,7 @@ def ensure_dirs():
 
 
 def workdir(name):
-    d = os.path.join(WORK, name)
+    d = os.path.join(WORK, name + run_tag())
     shutil.rmtree(d, ignore_errors=True)
     os.makedirs(d)
     return d
@@ -53,15 +53,45 @@ def workdir(name):
 # harness build (always from /repo's current working tree; path dependencies)
 # ------------------------------------------------------------------------------------------------
 
+def repo_root():
+    """/repo, or a scratch worktree when VERIF_REPO is set (used to try fixes and seeded changes
+    without touching /repo; registered checks always run against /repo)."""
+    return os.path.abspath(os.environ.get("VERIF_REPO", "/repo"))
+
+
+def harness_dir():
+    repo = repo_root()
+    if repo == "/repo":
+        return HARNESS
+    # a private copy of the harness crate whose path dependencies point at the scratch tree
+    tag = hashlib.sha256(repo.encode()).hexdigest()[:10]
+    d = os.path.join(WORK, "harness_" + tag)
+    os.makedirs(d, exist_ok=True)
+    subprocess.run(["rsync", "-a", "--delete", "--exclude", "target", "--exclude", "Cargo.toml",
+                    HARNESS + "/", d + "/"], check=True)
+    toml = open(os.path.join(HARNESS, "Cargo.toml")).read().replace('"/repo/', '"%s/' % repo)
+    tp = os.path.join(d, "Cargo.toml")
+    if not os.path.exists(tp) or open(tp).read() != toml:
+        open(tp, "w").write(toml)
+    return d
+
+
+def run_tag():
+    repo = repo_root()
+    return "" if repo == "/repo" else "_" + hashlib.sha256(repo.encode()).hexdigest()[:6]
+
+
 def build_harness(profile="dev", bins=None):
-    """cargo build the harness; returns the directory with the binaries.  Serialised by flock."""
+    """cargo build the harness against the current working tree of the repository; returns the
+    directory with the binaries.  Serialised by flock."""
     ensure_dirs()
-    lock = open(os.path.join(WORK, "build.lock"), "w")
+    hd = harness_dir()
+    lock = open(os.path.join(WORK, "build%s.lock" % run_tag()), "w")
     fcntl.flock(lock, fcntl.LOCK_EX)
     try:
-        lockfile = os.path.join(HARNESS, "Cargo.lock")
+        lockfile = os.path.join(hd, "Cargo.lock")
         if not os.path.exists(lockfile):
-            shutil.copy("/repo/Cargo.lock", lockfile)
+            shutil.copy(os.path.join(repo_root(), "Cargo.lock"), lockfile)
         cmd = ["cargo", "build", "--offline", "--quiet"]
         if profile == "release":
             cmd.append("--release")
@@ -69,14 +99,14 @@ def build_harness(profile="dev", bins=None):
             cmd += ["--bin", b]
         env = dict(os.environ, CARGO_NET_OFFLINE="true", RUSTFLAGS=os.environ.get("RUSTFLAGS", "") + " -Awarnings")
         t0 = time.time()
-        p = subprocess.run(cmd, cwd=HARNESS, env=env, stdout=subprocess.PIPE, stderr=subprocess.STDOUT, text=True)
+        p = subprocess.run(cmd, cwd=hd, env=env, stdout=subprocess.PIPE, stderr=subprocess.STDOUT, text=True)
         if p.returncode != 0:
             raise ToolError("harness build failed:\n" + p.stdout[-4000:])
         log("[build] %s profile built in %.1fs" % (profile, time.time() - t0))
     finally:
         fcntl.flock(lock, fcntl.LOCK_UN)
         lock.close()
-    return os.path.join(HARNESS, "target", "release" if profile == "release" else "debug")
+    return os.path.join(hd, "target", "release" if profile == "release" else "debug")
 
 
 # ------------------------------------------------------------------------------------------------
@@ -209,7 +239,9 @@ class Verdict:
         ev["coverage"].setdefault("known_findings_hit", sorted(hit.keys()))
         if self.notes:
             ev["coverage"]["notes"] = self.notes
-        with open(os.path.join(EVID, "%s.json" % self.prop), "w") as f:
+        evdir = EVID if not run_tag() else os.path.join(WORK, "evidence" + run_tag())
+        os.makedirs(evdir, exist_ok=True)
+        with open(os.path.join(evdir, "%s.json" % self.prop), "w") as f:
             json.dump(ev, f, indent=1)
         sys.stdout.flush()
         return 1 if new else 0
